@@ -66,6 +66,11 @@ def family(kinds, s):
     return T.Family(kinds, s)
 
 
+UNIT_OFFSETS = [(1.5, "eV"), (250.0, "meV"), (1200.0, "cm-1"), (1200.0, "cm^{-1}"), (300.0, "K"), (0.37, "a.u."), (-0.11, "au"), (1.5, "ev")]
+UNIT_IN_AU = {"ev": 1 / 27.211386245988, "mev": 1e-3 / 27.211386245988, "cm-1": 1 / 219474.6313632, "cm^{-1}": 1 / 219474.6313632,
+              "k": 1 / 315775.02480407, "a.u.": 1.0, "au": 1.0}
+
+
 def _emit(kinds, s, table, factors, offset, swaps=()):
     return {"kinds": list(kinds), "s": s, "table": [list(r) for r in table], "factors": [_jf(f) for f in factors],
             "offset": offset, "swaps": [int(x) for x in swaps]}
@@ -87,6 +92,14 @@ def cases(tier, seed):
     from mc import rebuild as RB
     for h in RB.histories(tier):
         yield {"history": h}
+    # the constant offset handed over in every unit the Quantity class accepts (conversion constants of the reference are CODATA
+    # values written here, compared at 1e-6)
+    for kinds in (("S", "S"), ("E", "B", "E")):
+        fam = family(kinds, 2)
+        rows = fam.rows()
+        table = [rows[1], rows[-1]]
+        for val, unit in UNIT_OFFSETS:
+            yield _emit(kinds, 2, table, [1.0, -0.5], [val, unit])
     yield from cases_(tier, seed)
 
 
@@ -210,6 +223,13 @@ def run_case(desc, seed):
     factors = [_uf(f) for f in desc["factors"]]
     offset = desc["offset"]
     swaps = desc["swaps"]
+    tol = TOL
+    if isinstance(offset, (list, tuple)):
+        q_offset = Quantity(offset[0], offset[1])
+        offset = offset[0] * UNIT_IN_AU[offset[1].lower()]
+        tol = 1e-6
+    else:
+        q_offset = Quantity(offset)
     ref = fam.dense(table, factors, offset)
     if np.abs(ref).max() == 0:
         return {"skipped": 1, "outcome": "zero-reference"}
@@ -227,15 +247,15 @@ def run_case(desc, seed):
             try:
                 model = Model(list(fam.basis), [])
                 terms = [fam.term(r, f, reverse=reverse) for r, f in zip(table, factors)]
-                mpo = Mpo(model, terms, offset=Quantity(offset), algo=algo)
+                mpo = Mpo(model, terms, offset=q_offset, algo=algo)
                 dense = mpo.todense()
             except Exception as e:
                 cls = "complex-local-matrix-with-real-factors" if (has_complex_local and real_factors) else "other"
                 viol.append({"sig": f"C01:construct:exception:{cls}:{type(e).__name__}",
                              "msg": f"Mpo(..., algo={algo}, reverse_listing={reverse}) raised {e!r}"})
                 continue
-            if not close(dense, ref, TOL):
-                viol.append({"sig": f"C01:construct:mismatch:{tag}",
+            if not close(dense, ref, tol):
+                viol.append({"sig": f"C01:construct:mismatch:{tag}" + (":offset-with-unit" if tol != TOL else ""),
                              "msg": f"algo={algo} reverse_listing={reverse}: todense differs from dense sum, rel err {rel_err(dense, ref):.3e}; bond dims {mpo.bond_dims}"})
                 continue
             bd = list(mpo.bond_dims)
